@@ -219,3 +219,72 @@ def xcorr_definition(o):
     """C07: xcorr against its defining sum, all length pairs 1..20, real and complex"""
     from contracts import standins
     return '#include <complex>\n' + standins.XCORR
+
+
+@adapter(r'gccphat|finddelay|peakloc')
+def delay_estimators(o):
+    """C18: finddelay / gccphat recover an integer shift of white noise, positive and negative, at sample rates 1 and 8000"""
+    from contracts import standins
+    return standins.DELAYS
+
+
+@adapter(r'dsplib::power|_power\(|power\(cmplx|power\(arr')
+def complex_powers(o):
+    """C17: powers of complex numbers in polar form: negative real bases with fractional exponents ((-1)^0.5 = i, (-8)^(1/3) = 1 + 1.732i),
+    all overloads agree"""
+    return HDR + '''
+static int chk(const char* what, cmplx_t got, double re, double im) { if (!(std::fabs(got.re - re) < 1e-9 && std::fabs(got.im - im) < 1e-9)) {
+    std::printf("%s = %g%+gi, expected %g%+gi\\n", what, got.re, got.im, re, im); return 1; } return 0; }
+int main() { int bad = 0;
+  bad += chk("power((-1,0), 0.5)", power(cmplx_t{-1, 0}, 0.5), 0, 1);
+  bad += chk("power((-8,0), 1/3)", power(cmplx_t{-8, 0}, 1.0 / 3), 1, std::sqrt(3.0));
+  bad += chk("power((-4,-0.0), 0.5)", power(cmplx_t{-4, -0.0}, 0.5), 0, -2);
+  bad += chk("power((0,2), 2.0)", power(cmplx_t{0, 2}, 2.0), -4, 0);
+  arr_cmplx a = {cmplx_t{-1, 0}, cmplx_t{-8, 0}}; arr_real e = {0.5, 1.0 / 3};
+  arr_cmplx r1 = power(a, 0.5); bad += chk("power({-1,-8}, 0.5)[0]", r1[0], 0, 1);
+  arr_cmplx r2 = power(a, e); bad += chk("power({-1,-8}, {0.5, 1/3})[1]", r2[1], 1, std::sqrt(3.0));
+  arr_cmplx r3 = power(cmplx_t{-1, 0}, e); bad += chk("power((-1,0), {0.5, 1/3})[0]", r3[0], 0, 1);
+  return bad ? 1 : 0; }
+'''
+
+
+@adapter(r'welch|_calcspec')
+def welch_conventions(o):
+    """C13: density-scaled welch conserves power when segments are zero-padded (winlen < nfft), and the short overloads use
+    half-window overlap with nfft the next power of two of the window length"""
+    return HDR + '''
+int main() { const int N = 4096; arr_real x(N); for (int i = 0; i < N; ++i) x[i] = std::sin(0.37 * i) + 0.5 * std::cos(1.1 * i + 0.3) + 0.1 * std::sin(0.01 * i * i);
+  for (int wl : {200, 256, 100}) for (int nfft : {256, 512}) { if (nfft < wl) continue; arr_real w = window::hann(wl);
+    auto r = welch(x, w, wl / 2, nfft, SpectrumType::Psd);
+    // Parseval per segment: sum over the one-sided density = mean of (w*x)^2 / mean(w^2), averaged over segments
+    double ref = 0; int ns = 0; double w2 = 0; for (int i = 0; i < wl; ++i) w2 += w[i] * w[i];
+    for (int t = 0; t + wl <= N; t += wl - wl / 2) { double s = 0; for (int i = 0; i < wl; ++i) s += (w[i] * x[t + i]) * (w[i] * x[t + i]); ref += s / w2; ++ns; }
+    ref /= ns; double got = 0; for (int k = 0; k < r.pxx.size(); ++k) got += r.pxx[k]; got /= nfft; got *= 1;
+    const double want = ref / 1;   // sum_k pxx[k] / nfft = sum (w x)^2 / sum w^2
+    if (std::fabs(got - want) > 1e-6 * want) { std::printf("welch density, window %d, nfft %d: summed density / nfft = %g, time-domain power %g\\n", wl, nfft, got, want); return 1; } }
+  { arr_real w = window::hamming(200); auto a = welch(x, w, SpectrumType::Psd); auto b = welch(x, w, 100, 256, SpectrumType::Psd);
+    if (a.pxx.size() != b.pxx.size()) { std::printf("welch(x, win[200]): %d bins, with overlap 100 and nfft 256 spelled out: %d\\n", a.pxx.size(), b.pxx.size()); return 1; }
+    for (int k = 0; k < a.pxx.size(); ++k) if (a.pxx[k] != b.pxx[k]) { std::printf("welch(x, win[200]) differs from welch(x, win, 100, 256) at bin %d: %g vs %g\\n", k, a.pxx[k], b.pxx[k]); return 1; } }
+  return 0; }
+'''
+
+
+@adapter(r'RlsFilter')
+def rls_reference(o):
+    """C12: RlsFilter against the textbook recursion with P(0) = diag_load * I (a-priori error, gain vector, Riccati update)"""
+    return '#include <vector>\n' + HDR + '''
+int main() { for (int n : {2, 5}) for (double dl : {0.5, 4.0}) { const double mu = 0.98; RlsFilter<real_t> f(n, mu, dl);
+    std::vector<double> w(n, 0.0), u(n, 0.0), P(n * n, 0.0); for (int i = 0; i < n; ++i) P[i * n + i] = dl;
+    const int N = 60; arr_real x(N), d(N); for (int i = 0; i < N; ++i) { x[i] = std::sin(0.9 * i) + 0.3 * std::cos(2.3 * i * i); d[i] = 0.7 * x[i] - 0.2 * (i ? x[i - 1] : 0) + 0.05 * std::sin(0.1 * i); }
+    auto r = f.process(x, d);
+    for (int t = 0; t < N; ++t) { for (int i = n - 1; i > 0; --i) u[i] = u[i - 1]; u[0] = x[t];
+      double y = 0; for (int i = 0; i < n; ++i) y += w[i] * u[i]; const double e = d[t] - y;
+      std::vector<double> Pu(n, 0.0); for (int i = 0; i < n; ++i) for (int j = 0; j < n; ++j) Pu[i] += P[i * n + j] * u[j];
+      double den = mu; for (int i = 0; i < n; ++i) den += u[i] * Pu[i]; std::vector<double> k(n); for (int i = 0; i < n; ++i) k[i] = Pu[i] / den;
+      std::vector<double> uP(n, 0.0); for (int j = 0; j < n; ++j) for (int i = 0; i < n; ++i) uP[j] += u[i] * P[i * n + j];
+      for (int i = 0; i < n; ++i) for (int j = 0; j < n; ++j) P[i * n + j] = (P[i * n + j] - k[i] * uP[j]) / mu;
+      for (int i = 0; i < n; ++i) w[i] += k[i] * e;
+      if (std::fabs(r.e[t] - e) > 1e-7 * (1 + std::fabs(e)) || std::fabs(r.y[t] - y) > 1e-7 * (1 + std::fabs(y))) {
+        std::printf("RlsFilter(n %d, forgetting %g, diag_load %g): sample %d y = %g e = %g, textbook recursion y = %g e = %g\\n", n, mu, dl, t, r.y[t], r.e[t], y, e); return 1; } } }
+  return 0; }
+'''
